@@ -20,18 +20,18 @@ func init() { props["C08"] = runC08 }
 
 // the harness's own facts about one indexed blob (never read back from the index)
 type c08blob struct {
-	ref     blob.Ref
-	rank    int
-	ctype   string // "", permanode, file, directory, claim, static-set
-	size    int
-	deleted bool
-	mtime   time.Time           // latest claim date (any signer); zero = no claims
-	ctime   time.Time           // dateCreated attribute of the owner if set, else mtime
-	attrs   map[string][]string // owner's current values
-	ntypes  map[string]bool     // camliNodeType values ever claimed by anyone
-	whole   string              // wholeRef of a file
-	name    string              // file / directory name
-	hidden  bool
+	ref      blob.Ref
+	rank     int
+	ctype    string // "", permanode, file, directory, claim, static-set
+	size     int
+	deleted  bool
+	mtime    time.Time           // latest claim date (any signer); zero = no claims
+	ctime    time.Time           // dateCreated attribute of the owner if set, else mtime
+	attrs    map[string][]string // owner's current values
+	ntypes   map[string]bool     // camliNodeType values ever claimed by anyone
+	whole    string              // wholeRef of a file
+	name     string              // file / directory name
+	hidden   bool
 	fsize    int        // file: content length
 	children []blob.Ref // directory: its direct entries
 	hist     []c08hist  // permanode: the owner's attribute claims in the order issued
